@@ -199,12 +199,12 @@ def _anchors(spec):
 def c03_opt(draw, cls, dim, accuracy):
     """Optional arguments over the whole documented bounds + boundary values."""
     opt = draw(gens.opt_args(cls, dim, mode="full"))
-    special = draw(st.floats(0, 1)) < 0.35
+    special = draw(st.floats(0, 1)) < (0.6 if cls == "Matern" else 0.35)
     if special:
         delta = draw(st.sampled_from([1, -1])) * draw(logfloat(1e-12, 1e-4))
         if cls == "Matern":
             opt["nu"] = draw(
-                st.sampled_from([20.0, _nx(20.0, 1), _nx(20.0, -1), 19.999999, 20.000001, 21.0, 30.0, 0.2, 19.5])
+                st.sampled_from([20.0, 20.0, 20.0, _nx(20.0, 1), _nx(20.0, 1), _nx(20.0, -1), 19.999999, 20.000001, 21.0, 30.0, 0.2, 19.5])
             )
         elif cls == "Integral":
             k = draw(st.sampled_from([1, 1, 2, 3, 5, 12, 24]))
